@@ -59,11 +59,21 @@ func prim(k string) expr.DataType {
 func goVal(kind string, v any) any {
 	if f, ok := v.(float64); ok {
 		switch kind {
-		case spec.Int, spec.Int32, spec.Int64:
+		case spec.Int:
 			return int(f)
-		case spec.UInt, spec.UInt32, spec.UInt64:
-			return int(f)
-		case spec.Float32, spec.Float64:
+		case spec.Int32:
+			return int32(f)
+		case spec.Int64:
+			return int64(f)
+		case spec.UInt:
+			return uint(f)
+		case spec.UInt32:
+			return uint32(f)
+		case spec.UInt64:
+			return uint64(f)
+		case spec.Float32:
+			return float32(f)
+		case spec.Float64:
 			return f
 		}
 	}
@@ -76,6 +86,8 @@ func num(kind string, f float64) any {
 	}
 	return f
 }
+
+var _ = num
 
 // validations emits the validation and default DSL for an attribute.
 func validations(a *spec.Attr) {
